@@ -366,6 +366,7 @@ class Check:
         self.coq = None
         self.known_hit = []
         self.distinct = set()
+        self.distinct_bulk = 0      # distinct cases of exhaustive sweeps, counted without keeping their keys
         self.evaluations = 0
 
     # -- logging
@@ -437,6 +438,11 @@ class Check:
         if nontrivial:
             self.distinct.add(key if isinstance(key, (str, int, tuple)) else json.dumps(key, sort_keys=True))
 
+    def count_bulk(self, evaluations, distinct):
+        """An exhaustive sweep whose cases are pairwise distinct by construction."""
+        self.evaluations += evaluations
+        self.distinct_bulk += distinct
+
     def sample(self, s):
         if len(self.coverage["samples"]) < 12:
             self.coverage["samples"].append(s)
@@ -497,7 +503,7 @@ class Check:
                 rc = 2
         cov = self.coverage
         cov["evaluations"] = self.evaluations
-        cov["distinct_nontrivial"] = len(self.distinct)
+        cov["distinct_nontrivial"] = len(self.distinct) + self.distinct_bulk
         cov["rule"] = rule
         cov["trusted_base"] = TRUSTED_BASE_COMMON + list(trusted or [])
         cov["known_findings_hit"] = [k["id"] for k in self.known_hit]
@@ -511,7 +517,7 @@ class Check:
         with open(os.path.join(EVID, self.prop + ".json"), "w") as f:
             json.dump(ev, f, indent=1, default=str)
         self.log("done rc=%d evaluations=%d distinct=%d violations=%d known=%d wall=%.1fs" % (
-            rc, self.evaluations, len(self.distinct), ev["violations"], len(self.known_hit), ev["wall_s"]))
+            rc, self.evaluations, len(self.distinct) + self.distinct_bulk, ev["violations"], len(self.known_hit), ev["wall_s"]))
         return rc
 
     broken = ()
